@@ -1,4 +1,4 @@
-From SV Require Import Model.Common Model.Md5 Model.Routing Model.RoutingMem.
+From SV Require Import Model.Common Model.Md5 Model.Routing Model.RoutingMem Model.RoutingConc.
 From Coq Require Import ExtrOcamlBasic.
 Definition run_line_model := run_line run_case_C06.
 Extraction "model.ml" run_line_model.
